@@ -98,6 +98,21 @@ Proof.
 Qed.
 Print Assumptions gen_add_files_under_accept_time_plus_ttl.
 
+(* OrderBook._remove takes the order out of its bucket and of no other: the index stays filed and its keys distinct *)
+Theorem gen_remove_keeps_the_index_filed : forall b o b' o', filed_ok (b_tbl b) -> NoDup (map fst (b_tbl b)) ->
+  remove_gen b o = Ok (b', o') -> filed_ok (b_tbl b') /\ NoDup (map fst (b_tbl b')).
+Proof.
+  intros b o b' o' F ND H. unfold remove_gen in H.
+  repeat step_res; cbn [bq_set btbl_set b_tbl] in *.
+  all: try (split; assumption).
+  all: match goal with E : xunfile ?k ?x ?t = Ok ?t' |- _ =>
+         unfold xunfile in E; destruct (xhas k t); [|discriminate E]; destruct (existsb _ _); [|discriminate E]; inversion E; subst; clear E end.
+  all: split; [|apply xset_keys; exact ND].
+  all: intros kk l x Hi Hx; destruct (xset_entries _ _ _ _ _ Hi) as [[-> ->]|[Hi' _]];
+       [apply MarketInv.In_remove_id in Hx; destruct (xget_entry _ _ _ Hx) as [l0 [Hl0 Hx0]]; exact (F _ _ _ Hl0 Hx0)|exact (F _ _ _ Hi' Hx)].
+Qed.
+Print Assumptions gen_remove_keeps_the_index_filed.
+
 (* OrderBook.cancel and OrderBook.change_order_volume: whenever they return, the queue is a heap again *)
 Theorem gen_cancel_keeps_the_heap : forall b o b' o', is_heap (b_q b) = true -> cancel_gen b o = Ok (b', o') ->
   is_heap (b_q b') = true /\ items (b_q b') = (if hmem o (b_q b) then remove_id (oid o) (items (b_q b)) else items (b_q b)).
